@@ -75,12 +75,6 @@ def slice_at(lines, pos, n):
     return lines[l - 1][c:c + n]
 
 
-def formfeed_class(src, pos=None):
-    """known-finding class `splitlines-separator`: the text contains a character that str.splitlines treats as a line
-    boundary and the parser does not (form feed, VT, FS/GS/RS, NEL, LS, PS)"""
-    return any(ch in src for ch in textgen.SPLITLINES_ONLY)
-
-
 def raw_declarations(S, src, cur, filename):
     """what location() computes before its projection: (declared_at, filename) of the declarations of the marked node,
     in the analysis of the marked text (name / attribute cursors only)"""
@@ -274,7 +268,7 @@ def correspondence_requests(S, src, filename, tree, rng, raw_queries):
         q.append(['raw', cps(ident), start[0], start[1], shift, delims])
         labels.append(('raw', ident, start, shift, delims))
         impl.append(list(r) if isinstance(r, tuple) else r)
-    return {'op': 'file', 'lines': [cps(l) for l in lines], 'q': q}, impl, labels, stmts
+    return {'op': 'file', 'src': cps(src), 'q': q}, impl, labels, stmts
 
 
 def impl_binding_positions(S, src, filename):
@@ -298,10 +292,8 @@ def impl_binding_positions(S, src, filename):
 
 def install_matchers(check):
     for k in check.known:
-        if k.get('class') == 'splitlines-separator':
-            k['_matcher'] = lambda what, replay: bool(replay.get('src')) and formfeed_class(replay['src']) \
-                and (what.startswith(('lint reports', 'location reports'))
-                     or (what.startswith(('text at', 'position outside')) and replay.get('explained_by_splitlines') is True))
+        if False:
+            pass
         elif k.get('class') == 'window-51-lines':
             k['_matcher'] = lambda what, replay: what.startswith('text at') and replay.get('fallback_beyond_window') is True
 
@@ -312,15 +304,10 @@ def report(check, kind, src, fn, fails):
         replay = {'kind': kind, 'detail': detail}
         if kind == 'file':
             replay['file'] = fn
-            replay['src'] = src if (formfeed_class(src) or len(src) < 100000) else None
+            replay['src'] = src if len(src) < 100000 else None
         else:
             replay['src'] = src
         replay['fallback_beyond_window'] = beyond_window(src, detail)
-        # the position is right in the line numbering of str.splitlines (what Source.lines uses)?
-        p2 = detail.get('pos') or detail.get('loc') or (detail.get('lint') or [0, 0, 0])[1:]
-        wants = [w for w in [detail.get('want'), detail.get('name')] + list(detail.get('candidates') or []) if w]
-        replay['explained_by_splitlines'] = formfeed_class(src) and any(
-            slice_at(src.splitlines(), tuple(p2), len(w)) == w for w in wants)
         check.fail(what + ' (%s)' % (detail.get('name'),), replay)
 
 
@@ -429,6 +416,22 @@ def run(check):
     if dis_decl == 0:
         check.oblige('correspondence declared_at (model = positions of all import/def/class bindings)', True)
 
+    # 3b. correspondence: util.splitlines (the model splits the file text itself) on separators of every kind
+    seps = ['\n', '\r\n', '\r', '\n\r', '\x0b', '\x0c', '\x1c', '\x1d', '\x1e', '\x85', '\u2028', '\u2029', '\r\r\n', '\n\n', ' ', '']
+    texts = ['', '\n', '\r', '\r\n', '\n\n', 'a', 'a\n', 'a\r\n', 'a\n\n', '\na', 'a\rb\r\nc\nd', 'a\x0cb\nc', '\r\n\r\n', 'a\r\n\n']
+    for _ in range(1500 if quick else 15000):
+        texts.append(''.join(rng.choice(['a', 'b c', '', 'import os', 'é', 'x = 1']) + rng.choice(seps) for _ in range(rng.choice([0, 1, 2, 3, 5]))))
+    texts += [src for _, src in programs[:200]]
+    dis_sl = 0
+    for t, r in zip(texts, common.ask_driver([{'op': 'splitlines', 's': cps(t)} for t in texts], exe='drv_text')):
+        impl_lines = S.util.Source(t, 'f.py').lines          # splitlines(source) or ['']
+        if ([textgen.uncps(x) for x in r['ok']] or ['']) != impl_lines:
+            dis_sl += 1
+            if dis_sl <= 5:
+                check.oblige('correspondence splitlines', False, 'text %r: impl %r, model %r' % (t[:80], impl_lines[:8], [textgen.uncps(x) for x in r['ok']][:8]))
+    if dis_sl == 0:
+        check.oblige('correspondence splitlines (model splitlines = Source(text).lines on texts with separators of every kind)', True)
+
     # 4. oracle search on the real code
     totals = {}
     n_fail = 0
@@ -501,6 +504,7 @@ def run(check):
                         'hypothesis_ascii_line(true of lines)': '%d of %d' % (sum(hyp_ascii), sum(hyp_lines)),
                         'find_id_loc_calls': n_raw, 'declared_at_bindings': n_decl, 'model_fallbacks': fallbacks,
                         'location_projections': n_proj, 'location_projections_unshifted': moved, 'disagreements_location_projection': dis_proj,
+                        'splitlines_texts': len(texts), 'disagreements_splitlines': dis_sl,
                         'disagreements_find_id_loc': dis_raw, 'disagreements_declared_at': dis_decl,
                         'layout_features': gen.features, 'oracle': totals, 'oracle_failures_before_known_findings': n_fail})
     for kind, src in programs[n_fixed:n_fixed + 3]:
@@ -509,8 +513,8 @@ def run(check):
         check.sample({'file': f})
     check.assumptions += [
         'columns are compared on ASCII-only lines (ast reports UTF-8 byte offsets, supp searches code points)',
-        'str.splitlines (Source.lines) is a parameter of the model: the theorems speak about the lines supp sees; that these are the '
-        "parser's lines is checked by the oracle only (open finding: form feed and other splitlines-only separators)",
+        "util.splitlines is modelled (the driver receives the file text); that its lines are the parser's lines is checked by the "
+        'slicing oracle (texts with \\r\\n, \\r, form feeds and the other str.splitlines-only separators are among the layouts)',
         'positions that come straight from ast (targets, parameters, handlers) are checked by slicing, not proved',
         'star-import names carry the position of the `*` and are not judged; modules (declared_at (1, 0)) are not bindings',
     ]
